@@ -38,7 +38,17 @@ def world():
         i = kid(eng, ctx, args[0])
         return Agg({0: Native("aname", name_of(i)), 1: Native("alabels", labels_of(i))})
 
+    def m_write_lock(eng, ctx, f, path, args, dty):
+        ctx.statics["write_locked"] = True
+        return MC.m_lock(eng, ctx, f, path, args, dty)
+
+    def m_drop(eng, ctx, f, v, ty):
+        if ty and "RwLockWriteGuard" in ty:
+            ctx.statics["write_locked"] = False
+        return None
+
     def m_clear_with(eng, ctx, f, path, args, dty):
+        ctx.observe("detach", locked=bool(ctx.statics.get("write_locked")))
         p = args[0]
         while isinstance(p, Ptr) and isinstance(eng.load_ptr(ctx, p), Ptr):
             p = eng.load_ptr(ctx, p)
@@ -49,6 +59,7 @@ def world():
         return TailCall(args[1], [cur])
 
     def m_record_samples(eng, ctx, f, path, args, dty):
+        ctx.observe("merge", locked=bool(ctx.statics.get("write_locked")))
         d = eng.load_ptr(ctx, args[0])
         s = MC.load(eng, ctx, args[1])
         if not (isinstance(d, Native) and d.kind == "adist" and isinstance(s, Native) and s.kind == "lvec"):
@@ -57,7 +68,8 @@ def world():
             ctx.observe("folded", sample=x)
         eng.store_ptr(ctx, args[0], Native("adist", d.data + tuple(s.data)))
         return UNIT
-    m = dict(MC.COLL)
+    m = {r"^std::sync::RwLock::write$|^RwLock::write$": m_write_lock, "__drop__": m_drop}
+    m.update(MC.COLL)
     m.update({
         r"get_counter_handles$": m_handles("Counter"), r"get_gauge_handles$": m_handles("Gauge"), r"get_histogram_handles$": m_handles("Histogram"),
         r"^Generational::get_generation$": lambda *a: Opaque("generation"), r"^Generational::get_inner$": m_get_inner,
@@ -200,7 +212,10 @@ def scen_conservation(e3):
         once = z3.And(*[z3.Sum(*[z3.If(x == t, 1, 0) for x in folded] + [z3.IntVal(0), z3.IntVal(0)]) == 1 for t in s]) if True else None
         # samples are compared by value: make them pairwise different so that "exactly once" is about the samples themselves
         distinct = z3.And(s[0] != s[1], s[1] != s[2], s[0] != s[2])
-        return [("histogram_count_is_number_of_samples_recorded", "a snapshot's distribution for the key does not hold exactly the samples recorded so far (lost, duplicated or reordered by render/upkeep interleavings)", bad_count),
+        unlocked = [lab for lab, e, pl in l.obs if lab in ("detach", "merge") and not pl["locked"]]
+        out_lock = ("samples_leave_the_bucket_and_enter_the_distribution_under_one_write_lock", "samples are taken out of the bucket or folded into the distribution while the distributions write lock is not held: "
+                    "a concurrent render or upkeep can then see them in neither place", z3.BoolVal(bool(unlocked)))
+        return [out_lock, ("histogram_count_is_number_of_samples_recorded", "a snapshot's distribution for the key does not hold exactly the samples recorded so far (lost, duplicated or reordered by render/upkeep interleavings)", bad_count),
                 ("every_sample_folded_exactly_once", "a recorded sample is folded into the distribution twice or never", z3.And(distinct, z3.Not(once))),
                 ("counter_and_gauge_show_the_current_value", "the snapshot's counter or gauge value is not the storage's value", bad_val)]
     run_history(e3, "c07_conservation", steps, expect)
